@@ -146,6 +146,7 @@ PROPS = {
         assumptions=["timestamps and durations fit int64 nanoseconds", "SyncFromHash/SyncFromHeight name headers that exist on the network (otherwise an error is the right answer)"],
     ),
     "C09": dict(
+        retry=True,
         props_files=["GoHeader/Props/C09.lean"], gen=["minHeadResponses", "maxUntrustedHeadRequests"],
         canon=lambda l: l.split(" => ")[0], nontrivial=lambda l: " n=1 " not in l,
         rule="real p2p.Exchange.Head against 1..6 scripted peers on a libp2p mocknet whose answers (main/fork heads at several heights, NOT_FOUND, garbage, invalid, wrong chain, unknown status, empty, reset, hang) "
@@ -158,6 +159,7 @@ PROPS = {
         timeout={"quick": 900, "thorough": 3000},
     ),
     "C13": dict(
+        retry=True,
         props_files=["GoHeader/Props/C13.lean"], gen=["statusToError"],
         canon=lambda l: l.split(" => ")[0], nontrivial=lambda l: " n=1 " not in l,
         rule="real p2p.Exchange.Get / GetByHeight against 1..4 scripted trusted peers on a mocknet; answers: the requested header, a valid header of another height / of a fork, wrong chain, failing Validate, garbage bytes, "
@@ -167,5 +169,32 @@ PROPS = {
                       "performRequest's goroutines are hand-modelled as 'first valid answer in arrival order'; the harness' reading of which scripted answers are valid (Oracle/C13.lean gansOf?)"],
         assumptions=["answers released 4 ms apart are consumed in that order", "GetByHeight is not read as binding the returned header's height (the property does not say so)"],
         timeout={"quick": 900, "thorough": 3000},
+    ),
+    "C05": dict(
+        retry=True,
+        props_files=["GoHeader/Props/C05.lean"], gen=[],
+        canon=lambda l: re.sub(r" trace=.*", "", l).split(" => ")[0], nontrivial=lambda l: "trace=-" not in l,
+        rule="real p2p.Exchange.GetRangeByHeight against 1..4 scripted tracked peers on a mocknet; per (peer, request index) one behaviour out of: honest, prefix, shifted origin, previous chunk, reordered, gapped, forged header, wrong chain, "
+             "oversized, unknown status, garbage, NOT_FOUND, empty, reset, hang; chunk sizes {1,2,3,4,5,8,64}; degenerate (from,to); every request each peer received is logged with a global sequence number; "
+             "distinct = distinct (from, to, chunk, peer scripts); non-trivial = at least one sub-request reached a peer",
+        trusted_base=[KERNEL, HARNESS_TB,
+                      "the session's goroutines/channels/peer queue are hand-modelled as a multiset of outstanding sub-requests; tie = every recorded (peer, origin, amount) request of the real run is replayed on the model and must be outstanding there, and the final result must agree",
+                      "Oracle/C05.lean `outcome`: the model's reading of what the client makes of each scripted behaviour",
+                      "modelled, not verified: libp2p mocknet, serde framing, peer scoring (float32 heap: exercised, not modelled), real-time request timeouts (120 ms in the harness)"],
+        assumptions=["peers other than the scripted catalogue are not explored", "fork headers that verify non-adjacently against `from` are outside the catalogue (the exchange verifies chunks against `from` only)"],
+        timeout={"quick": 900, "thorough": 3400},
+    ),
+    "C18": dict(
+        retry=True,
+        props_files=["GoHeader/Props/C18.lean", "GoHeader/Props/C05.lean"], gen=[],
+        canon=lambda l: re.sub(r" trace=.*", "", l).split(" => ")[0], nontrivial=lambda l: "trace=-" not in l,
+        rule="honest scripted peers holding the chain up to per-peer heights, benign faults (NOT_FOUND, prefix answers, one timeout, reset, empty) leaving one capable peer; chunk sizes 1..8,16,33,64 x amounts {1, chunk-1, chunk, chunk+1, 2*chunk+1, 3*chunk}, "
+             "1..5 peers, seeded random availability; the call must return exactly from+1..to-1; distinct = distinct (from, to, chunk, peer scripts); non-trivial = at least one sub-request reached a peer",
+        trusted_base=[KERNEL, HARNESS_TB,
+                      "the session's goroutines/channels/peer queue are hand-modelled as a multiset of outstanding sub-requests; tie = every recorded (peer, origin, amount) request of the real run is replayed on the model and must be outstanding there, and the final result must agree",
+                      "Oracle/C05.lean `outcome`: the model's reading of what the client makes of each scripted behaviour",
+                      "modelled, not verified: libp2p mocknet, serde framing, peer scoring (float32 heap: exercised, not modelled), real-time request timeouts (120 ms in the harness)"],
+        assumptions=["termination is observed within the harness timeout (real time), proved only as a decreasing measure per accepted answer"],
+        timeout={"quick": 900, "thorough": 3400},
     ),
 }
